@@ -99,6 +99,7 @@ def g_mix(rng, p_break=0.35, p_reusable=0.5, max_tasks=30, force_context=None):
     if kw.get("context") == "fork":
         nthreads = 1  # forking while other user threads run is outside what any library can promise
     will_break = rng.random() < p_break
+    chain = rng.random() < 0.3  # done-callbacks that submit a follow-up task (from the manager, feeder or submitting thread)
     threads = []
     setup = [{"op": "new", "ex": "e", "kind": kind, "kw": kw}]
     total = rng.randint(5, max_tasks)
@@ -111,7 +112,8 @@ def g_mix(rng, p_break=0.35, p_reusable=0.5, max_tasks=30, force_context=None):
             if will_break and r < 0.06:
                 ops.append({"op": "submit", "ex": "e", "task": t_breaking(rng)})
             elif r < 0.70:
-                ops.append({"op": "submit", "ex": "e", "task": benign_task(rng), "raising_cb": rng.random() < 0.05})
+                # (chained callbacks only on plain executors: on a reusable one they meet a concurrent resize, open finding F26)
+                ops.append({"op": "submit", "ex": "e", "task": benign_task(rng), "raising_cb": rng.random() < 0.05, "chain_cb": kind == "plain" and chain and rng.random() < 0.5})
             elif r < 0.76:
                 ops.append({"op": "cancel", "fut": "__recent__"})
             elif r < 0.84:
@@ -187,6 +189,33 @@ def renumber_cancels(threads):
                 op["op"] = "sleep"
                 op["d"] = 0.001
                 op.pop("fut", None)
+
+
+def g_mass_cancel(rng):
+    """More queued futures than the call queue holds, most of them cancelled in one go (what Executor.map does on a
+    time-out), live work queued behind the cancelled items and submitted afterwards."""
+    kind = rng.choice(["plain", "reusable"])
+    kw = {"max_workers": rng.choice([1, 1, 2]), "timeout": rng.choice([None, 10]) if kind == "plain" else 10}
+    n = rng.randint(20, 40)
+    ops = [{"op": "new", "ex": "e", "kind": kind, "kw": kw}]
+    for i in range(n):
+        ops.append({"op": "submit", "ex": "e", "task": t_sleep(rng, 0.03, 0.12) if i < 6 else t_ok(rng)})
+    first = 2  # op index (1-based) of the first submit
+    victims = [first + i for i in range(n) if i >= 4 and rng.random() < 0.8]
+    if rng.random() < 0.5:
+        victims.reverse()
+    keep_tail = rng.random() < 0.7
+    if keep_tail and victims:
+        victims = [v for v in victims if v < first + n - 3]  # the last submissions stay live behind the cancelled ones
+    for v in victims:
+        ops.append({"op": "cancel", "fut": "t0.%d" % v})
+    for _ in range(rng.randint(0, 3)):
+        ops.append({"op": "submit", "ex": "e", "task": t_ok(rng)})
+    ops += [{"op": "wait", "futs": "all"}, {"op": "quiesce", "ex": ["e"]}]
+    ending = rng.choice(["shutdown", "exit"])
+    if ending == "shutdown":
+        ops.append({"op": "shutdown", "ex": "e", "wait": True})
+    return {"threads": [ops], "end": "return"}, {"gen": "g_mass_cancel", "kind": kind, "kw": kw, "nthreads": 1, "ending": ending, "n_cancel": len(victims)}
 
 
 # ---------------------------------------------------------------------------
